@@ -4,7 +4,7 @@
 //! ops (answered by the model as well):
 //!   ttape <hex>                 `ok <tape> bom:<0|1>` | `err:eof` | `err:syntax` | `err:stack`
 //!   ttapeoff <hex>              same with scalars as `<kind>@<offset>+<len>`
-//!   tfaith <hex> <tape> <n|q>   = ttape; L3: the real tape equals the expected tape in the case line
+//!   tfaith <hex> <tape>         = ttape; L3: the real tape equals the expected tape in the case line
 //!   tlay <hexA> <hexB> <hexC>   `eq:<0|1> <result of C>`; L3: the three tapes are equal
 //!   treuse <hexPrev> <hex>      = ttape of <hex>, parsed into a tape that held <hexPrev> before; L3: == fresh
 //!   split|splitfb <hex>         `<scalar len> <rest len>`; L3: split == splitfb
@@ -310,8 +310,8 @@ pub fn tape_of(doc: &Doc) -> Vec<ET> {
     b.out
 }
 
-/// the documented quirk: the FIRST field of a nested container written with `?=` or `!=`
-/// (ParseOpen peeks only `=`, `<`, `>`), so the container becomes a mixed array.
+/// `?=` / `!=` on the FIRST field of a nested container (the ParseOpen peek has to look at two
+/// bytes for these); counted so that the evidence shows the generator reaches it.
 pub fn has_first_field_operator(doc: &Doc) -> bool {
     fn field(f: &Field) -> bool { node(&f.val) }
     fn fields(fs: &[Field]) -> bool {
@@ -358,7 +358,7 @@ pub fn normalise(doc: &mut Doc) -> usize {
 
 /// A document as a lexeme list plus its expected tape.  Parameter openers `[[x]` / `[[!x]` and the
 /// closing `]` travel as `Lex::Scalar(.., true)` so that the layout keeps them in one piece.
-pub struct LexDoc { pub lex: Vec<Lex>, pub tape: Vec<ET>, pub quirk: bool }
+pub struct LexDoc { pub lex: Vec<Lex>, pub tape: Vec<ET>, pub first_field_op: bool }
 
 fn plain_key(rng: &mut Rng) -> Vec<u8> { rng.pick(&KEY_POOL).as_bytes().to_vec() }
 
@@ -405,7 +405,7 @@ fn append_param_block(rng: &mut Rng, cfg: &DocCfg, out: &mut LexDoc) {
     // the first key is read with split_at_scalar whatever it starts with: keep it a plain unquoted key
     fs[0].key = Leaf::Unq(plain_key(rng));
     fs[0].ghosts = 0;
-    if fs.iter().any(|f| has_first_field_operator(&Doc { fields: vec![f.clone()] })) { out.quirk = true; }
+    if fs.iter().any(|f| has_first_field_operator(&Doc { fields: vec![f.clone()] })) { out.first_field_op = true; }
     append_fields(out, &fs);
     let e = out.tape.len();
     out.tape[i] = ET::O(e, false);
@@ -415,11 +415,11 @@ fn append_param_block(rng: &mut Rng, cfg: &DocCfg, out: &mut LexDoc) {
 
 /// documents with parameter blocks at top level and as the first thing inside a container
 pub fn gen_param_doc(rng: &mut Rng, cfg: &DocCfg) -> LexDoc {
-    let mut out = LexDoc { lex: vec![], tape: vec![], quirk: false };
+    let mut out = LexDoc { lex: vec![], tape: vec![], first_field_op: false };
     let mut pre = gen_doc(rng, cfg);
     normalise(&mut pre);
     pre.fields.truncate(2);
-    out.quirk |= has_first_field_operator(&pre);
+    out.first_field_op |= has_first_field_operator(&pre);
     append_fields(&mut out, &pre.fields);
     if rng.chance(1, 2) {
         append_param_block(rng, cfg, &mut out);
@@ -436,7 +436,7 @@ pub fn gen_param_doc(rng: &mut Rng, cfg: &DocCfg) -> LexDoc {
         let mut more = gen_doc(rng, cfg);
         normalise(&mut more);
         more.fields.truncate(2);
-        out.quirk |= has_first_field_operator(&more);
+        out.first_field_op |= has_first_field_operator(&more);
         append_fields(&mut out, &more.fields);
         out.lex.push(Lex::Close);
         let e = out.tape.len();
@@ -446,7 +446,7 @@ pub fn gen_param_doc(rng: &mut Rng, cfg: &DocCfg) -> LexDoc {
     let mut post = gen_doc(rng, cfg);
     normalise(&mut post);
     post.fields.truncate(2);
-    out.quirk |= has_first_field_operator(&post);
+    out.first_field_op |= has_first_field_operator(&post);
     append_fields(&mut out, &post.fields);
     out
 }
@@ -460,9 +460,9 @@ fn gen_lexdoc(g: &mut Gen) -> LexDoc {
     let mut doc = gen_doc(&mut g.rng, &cfg);
     let changed = normalise(&mut doc);
     if changed > 0 { g.count("doc:first-field-implicit-eq-normalised"); }
-    let quirk = has_first_field_operator(&doc);
+    let first_field_op = has_first_field_operator(&doc);
     g.count("doc:plain");
-    LexDoc { lex: lexemes(&doc), tape: tape_of(&doc), quirk }
+    LexDoc { lex: lexemes(&doc), tape: tape_of(&doc), first_field_op }
 }
 
 // ---------------------------------------------------------------------------------------
@@ -549,9 +549,9 @@ fn gen_docs(g: &mut Gen, n: usize) {
         let a = render_layout(&mut g.rng, &lay, &d.lex);
         let b = render_layout(&mut g.rng, &lay, &d.lex);
         let expected = et_string(&d.tape);
-        if d.quirk { g.count("doc:first-field-operator"); }
+        if d.first_field_op { g.count("doc:first-field-operator"); }
         g.count(&format!("doc:bytes:{}", match canon.len() { 0 => "0", 1..=31 => "1-31", 32..=127 => "32-127", 128..=511 => "128-511", _ => "512+" }));
-        g.emit(format!("tfaith {} {} {}", hex(&canon), expected, if d.quirk { "q" } else { "n" }));
+        g.emit(format!("tfaith {} {}", hex(&canon), expected));
         g.emit(format!("tlay {} {} {}", hex(&a), hex(&b), hex(&canon)));
         g.emit(format!("ttapeoff {}", hex(&a)));
         if g.rng.chance(1, 3) {
@@ -709,17 +709,13 @@ pub fn exec(w: &[&str], obs: &mut Obs) -> Option<String> {
             count_tape(obs, &d);
             Some(tape_line(&d, true))
         }
-        ["tfaith", h, expected, flag] => {
+        ["tfaith", h, expected] => {
             let d = unhex(h)?;
             count_tape(obs, &d);
             let r = tape_line(&d, false);
             let want = format!("ok {} bom:0", expected);
             if r != want {
-                if *flag == "q" {
-                    obs.violation("first-field-operator", &case, "operator ?= / != on the first field of a nested container: the container is parsed as a mixed array");
-                } else {
-                    obs.violation("faithful", &case, &format!("tape of the canonical rendering is {} but the document's tape is {}", r, want));
-                }
+                obs.violation("faithful", &case, &format!("tape of the canonical rendering is {} but the document's tape is {}", r, want));
             } else {
                 obs.count("faithful:ok");
             }
